@@ -69,6 +69,9 @@ const HOSTILE: &[(&str, &str)] = &[
     ("comment-unterminated", "/* abc\n"),
     ("todo", "TODO: x\n"),
     ("escapes", "\\{ \\} \\| \\# \\\\ \\\n"),
+    ("dup-item-names", "LIST lp = (same), p2\nLIST lq = q1, (same)\nLIST lr = r1, r2, (same)\nVAR m = ()\n~ m = (same)\n{m} {LIST_VALUE(m)}\n~ m = (same, p2)\n{m}\n{same}\n"),
+    ("dup-item-names-in-knot", "LIST lp = (same), p2\nLIST lq = q1, (same)\nLIST lr = r1, r2, (same)\nVAR m = ()\n-> k\n=== k ===\n~ m = (same)\n{m}\n* [{same}] -> k\n"),
+    ("dup-knot-and-var-names", "VAR k = 1\nLIST l = k, j\n-> k\n=== k ===\n{k}\n-> END\n=== j ===\n-> END\n"),
 ];
 
 fn deep_inputs() -> Vec<(String, String)> {
@@ -196,9 +199,17 @@ pub fn judge(text: &str) -> (String, Vec<(String, String)>) {
         Ok(Ok(json_text)) => {
             status = "compiled".to_string();
             // deterministic
-            match guarded(|| Compiler::new().compile(text)) {
-                Ok(Ok(again)) if again == json_text => {}
-                _ => viol.push(("nondeterministic-compile".into(), "compiling the same text twice gave different results".into())),
+            // (small texts that declare lists are compiled a dozen times: an order taken from a
+            // freshly keyed hash map shows up with near certainty)
+            let repeats = if text.len() < 400 && text.contains("LIST") { 12 } else { 1 };
+            for _ in 0..repeats {
+                match guarded(|| Compiler::new().compile(text)) {
+                    Ok(Ok(again)) if again == json_text => {}
+                    _ => {
+                        viol.push(("nondeterministic-compile".into(), "compiling the same text again gave a different result".into()));
+                        break;
+                    }
+                }
             }
             // loads
             bladeink::verif::set_forced_seed(Some(1));
